@@ -318,13 +318,15 @@ def run(ctx: Ctx) -> None:
                 if e:
                     ctx.fail("dangerous-url", "validateLink accepts a normalised URL with a dangerous scheme: " + e, {"input": u, "normalised": n})
                     break
+        from . import rxtie
+        rxtie.tie_leaf(ctx, drv, quick)      # translated regular expressions + inline leaf rules (autolink, html_inline, entity)
     finally:
         drv.close()
     scan = validate_scan()
     ctx.cov["static_validate_scan"] = scan
     ctx.partial += [
-        "C05.tokens (every href/src the parser stores went through normalizeLink and validateLink) is not yet a theorem of "
-        "an inline-parser model; it is carried by the oracle on tokens/HTML and the advisory AST scan",
+        "C05.tokens (every href/src the parser stores went through normalizeLink and validateLink) is a theorem for autolinks in the "
+        "modelled inline sub-parser (C05.xmini_hrefs); for link, image, reference and linkify it is carried by the oracle on tokens/HTML and the advisory AST scan",
         "the linkifier clause cannot be exercised: linkify-it-py is not installed in this sandbox",
         "normalizeLink = encode ∘ reformat with reformat (mdurl.parse/format, punycode) an external parameter: the theorems hold "
         "for every reformat",
